@@ -45,12 +45,22 @@ def config(draw):
     }
 
 
+EXT_MODULE_SRC = ('extern fn labs(x: int) -> int\npub fn mag(x: int) -> int {\n    let mut r: int = 0\n    unsafe { set r (labs x) }\n    return r\n}\n'
+                  'shadow mag { assert (== (mag -3) 3) }\n')
+MAIN_WITH_EXT_IMPORT = 'from "ext.nano" import mag\nfn main() -> int {\n    (println (mag -6))\n    return 0\n}\nshadow main { assert true }\n'
+
+
 @st.composite
 def case(draw, features):
-    kind = draw(st.integers(0, 5))
-    prog = None if kind == 0 else draw(progen.programs(features=features, size=3))
+    kind = draw(st.integers(0, 8))
+    prog = None if kind in (0, 6) else draw(progen.programs(features=features, size=3))
     cfgs = [draw(config()) for _ in range(draw(st.integers(2, 3)))]
-    return {"prog": prog, "cfgs": cfgs}
+    # kind 0: fixed two-file program; 6: two-file program whose module declares an extern function;
+    # 7, 8: the generated program rendered as main file + module (progen.split_program)
+    k = {0: "import", 6: "import_extern", 7: "split", 8: "split"}.get(kind, "single")
+    if k == "import_extern" and draw(st.booleans()):
+        k = "import_transitive_extern"
+    return {"prog": prog, "cfgs": cfgs, "kind": k}
 
 
 class Ctx:
@@ -128,12 +138,23 @@ def differing_dims(a, b):
 
 
 def files_of(c):
+    kind = c.get("kind", "import" if c["prog"] is None else "single")
+    if kind == "import_extern":
+        return {"p.nano": MAIN_WITH_EXT_IMPORT, "ext.nano": EXT_MODULE_SRC}
+    if kind == "import_transitive_extern":
+        return {"p.nano": 'from "mid.nano" import mag2\nfn main() -> int {\n    (println (mag2 -6))\n    return 0\n}\nshadow main { assert true }\n',
+                "mid.nano": 'from "ext.nano" import mag\npub fn mag2(x: int) -> int {\n    return (* 2 (mag x))\n}\nshadow mag2 { assert (== (mag2 -3) 6) }\n',
+                "ext.nano": EXT_MODULE_SRC}
     if c["prog"] is None:
         return {"p.nano": MAIN_WITH_IMPORT, "m.nano": MODULE_SRC}
+    if kind == "split":
+        sp = progen.split_program(c["prog"], 3)
+        if sp is not None:
+            return {"p.nano": sp[0], "m.nano": sp[1]}
     return {"p.nano": progen.print_program(c["prog"])}
 
 
-def compare(ctx, files, cfgs, tag="c"):
+def compare(ctx, files, cfgs, tag="c", skip=()):
     outs = []
     for i, cfg in enumerate(cfgs):
         r = compile_under(ctx, files, cfg, "%s%d" % (tag, i))
@@ -143,6 +164,8 @@ def compare(ctx, files, cfgs, tag="c"):
     a = outs[0]
     for i, b in enumerate(outs[1:], 1):
         for k, label in (("nvm", "bytecode file"), ("genc", "generated C"), ("rc", "exit statuses"), ("diag_virt", "nano_virt diagnostics"), ("diag_nanoc", "nanoc diagnostics")):
+            if k in skip:
+                continue
             if a[k] != b[k]:
                 det = "%s differs between configuration 0 and %d" % (label, i)
                 if k in ("nvm", "genc") and a[k] is not None and b[k] is not None:
@@ -158,20 +181,24 @@ def compare(ctx, files, cfgs, tag="c"):
 
 def run_case(ctx, c, ev):
     files = files_of(c)
-    if c["prog"] is None and ctx.module_path_known:
-        # known finding: generated C embeds the module path as resolved from the invocation; keep cwd and path form fixed
-        for x in c["cfgs"][1:]:
-            x["cwd"] = c["cfgs"][0]["cwd"]
-            x["abspath"] = c["cfgs"][0]["abspath"]
-        ev.exclude("multi_module_cwd_and_path_form_variation")
-    v, detail = compare(ctx, files, c["cfgs"])
+    skip = ()
+    if len(files) > 1 and ctx.module_path_known:
+        # known finding: the generated C embeds the module path as resolved from the invocation. The working directory and
+        # the path form still vary; only the generated C is left out of the comparison for programs with imports (the
+        # bytecode file and the diagnostics are compared as for every other program)
+        varied = any(x["cwd"] != c["cfgs"][0]["cwd"] or x["abspath"] != c["cfgs"][0]["abspath"] for x in c["cfgs"][1:])
+        if varied:
+            skip = ("genc",)
+            ev.exclude("generated_C_comparison_for_imports_under_path_variation")
+    v, detail = compare(ctx, files, c["cfgs"], skip=skip)
     src = files["p.nano"]
     dims = max(differing_dims(c["cfgs"][0], x) for x in c["cfgs"][1:])
     nf = len(c["prog"]["funcs"]) if c["prog"] else 3
     nontrivial = v == "same" and dims >= 3 and '"' in src and nf >= 2
     ev.case(src + json.dumps(c["cfgs"], sort_keys=True), nontrivial)
     ev.cls("verdict_" + v)
-    ev.cls("multi_module" if c["prog"] is None else "single_file")
+    ev.cls("multi_module" if len(files) > 1 else "single_file")
+    ev.cls("kind_" + c.get("kind", "?"))
     if any(x["build"] == "asan" for x in c["cfgs"]) and any(x["build"] == "plain" for x in c["cfgs"]):
         ev.cls("plain_vs_asan_compiler")
     if v == "inconclusive":
@@ -183,14 +210,17 @@ def run_case(ctx, c, ev):
 
 
 def describe_failure(ctx, c, cf):
-    return {"src": json.dumps({"files": files_of(c), "cfgs": c["cfgs"]}), "detail": cf.detail, "payload": {}, "sigs": []}
+    files = files_of(c)
+    varied = any(x["cwd"] != c["cfgs"][0]["cwd"] or x["abspath"] != c["cfgs"][0]["abspath"] for x in c["cfgs"][1:])
+    skip = ["genc"] if (len(files) > 1 and ctx.module_path_known and varied) else []
+    return {"src": json.dumps({"files": files, "cfgs": c["cfgs"], "skip": skip}), "detail": cf.detail, "payload": {}, "sigs": []}
 
 
 def replay(path):
     ctx = make_ctx(0, "quick", {})
     ctx.tools["plain"].prewarm(ctx.dir)
     d = json.load(open(path))
-    v, detail = compare(ctx, d["files"], d["cfgs"], "replay")
+    v, detail = compare(ctx, d["files"], d["cfgs"], "replay", skip=tuple(d.get("skip", ())))
     print("replay:", v, detail[:600])
     return 1 if v == "differ" else 0
 
@@ -210,7 +240,7 @@ def main(tier):
     for f in common.fixed_findings(PROP):
         rp = os.path.join(common.VERIF, f["replay"][PROP])
         d = json.load(open(rp))
-        v, detail = compare(ctx, d["files"], d["cfgs"], "fixed")
+        v, detail = compare(ctx, d["files"], d["cfgs"], "fixed", skip=tuple(d.get("skip", ())))
         ev.cls("fixed_regression_replayed")
         if v == "differ":
             print("C19: fixed finding %s is back: %s" % (f["id"], detail[:300]))
@@ -226,7 +256,7 @@ def main(tier):
         fl = r["failure"]
         if fl:
             d = json.loads(fl["src"])
-            again = [compare(ctx, d["files"], d["cfgs"], "confirm")[0] for _ in range(3)]
+            again = [compare(ctx, d["files"], d["cfgs"], "confirm", skip=tuple(d.get("skip", ())))[0] for _ in range(3)]
             if not all(a == "differ" for a in again):
                 if os.environ.get("VERIF_DEBUG"):
                     print("C19 debug: unconfirmed: %s\n%s" % (fl["detail"][:600], json.dumps(d["cfgs"])[:600]), file=sys.stderr)
